@@ -100,6 +100,7 @@ type Sim struct {
 	pctSteps map[int]bool
 	rrNext   int
 	boost    *task
+	adoptN   int
 	sigh     uint64
 	probes   map[string]int
 }
@@ -351,6 +352,28 @@ func Go(site string, f func()) {
 	s.live++
 	s.mu.Unlock()
 	go s.runTask(t, "go:"+site, f)
+}
+
+// Adopted wraps a function that the runtime will call in a goroutine of its
+// own (context.AfterFunc, time.AfterFunc): when it is called inside a
+// simulation that goroutine becomes a simulated task, so the scheduler - not
+// the Go runtime - decides when its effect becomes visible to the others.
+func Adopted(site string, f func()) func() {
+	return func() {
+		s := cur
+		if s == nil {
+			f()
+			return
+		}
+		s.mu.Lock()
+		s.adoptN++
+		t := &task{id: "a." + strconv.Itoa(s.adoptN), path: []int{1 << 30, s.adoptN}}
+		t.pri = s.rng.Float64()
+		s.all = append(s.all, t)
+		s.live++
+		s.mu.Unlock()
+		s.runTask(t, "adopted:"+site, f)
+	}
 }
 
 func (s *Sim) runTask(t *task, site string, f func()) {
